@@ -114,6 +114,33 @@ Theorem C05_multi_table_delete : forall tp tc on wh ps cs ps' np cs' nc,
 Proof. exact delete_join_spec. Qed.
 Print Assumptions C05_multi_table_delete.
 
+(* the same over LEFT / RIGHT / FULL joins, where a joined row can lack a record of one table: a row leaves a
+   target table iff its position occurs in a joined row that ON and WHERE keep - the joined rows being those
+   of the join of C03 over the rows extended by their position, so that a NULL-padded side names no record *)
+Theorem C05_multi_table_delete_any_join : forall k tp tc lw rw on wh ps cs ps' np cs' nc,
+  delete_join_k k tp tc lw rw on wh ps cs = Ok ((ps', np), (cs', nc)) ->
+  exists kept,
+    kept_join_rows k lw rw on wh ps cs = Ok kept /\
+    (if tp then exists idx, (forall i, In i idx <-> occurs_at lw kept i) /\ NoDup idx /\
+                            ps' = remove_idx idx ps /\ np = Z.of_nat (length idx)
+     else ps' = ps /\ np = 0%Z) /\
+    (if tc then exists idx, (forall j, In j idx <-> occurs_at (S lw + rw) kept j) /\ NoDup idx /\
+                            cs' = remove_idx idx cs /\ nc = Z.of_nat (length idx)
+     else cs' = cs /\ nc = 0%Z).
+Proof. exact delete_join_k_spec. Qed.
+Print Assumptions C05_multi_table_delete_any_join.
+
+Theorem C05_position_column_holds_the_position : forall (rows : list row) i r,
+  nth_error rows i = Some r -> nth_error (with_idx rows) i = Some (r ++ [VInt (Z.of_nat i)]).
+Proof. exact with_idx_nth. Qed.
+
+(* p = (1),(2); c = (2): the LEFT JOIN keeps (1,NULL) and (2,2); deleting from both removes both rows of p
+   and the one row of c *)
+Example C05_multi_table_delete_left_join_example :
+  delete_join_k JLeft true true 1 1 (Some (ECmp Compare.OpEq (ECol 0) (ECol 2))) None [[VInt 1]; [VInt 2]] [[VInt 2]]
+  = Ok (([], 2%Z), ([], 1%Z)).
+Proof. vm_compute. reflexivity. Qed.
+
 (* UPDATE p SET .. FROM p JOIN c ..: number and order of p's rows are kept; a row that takes part in no kept
    joined row is unchanged; c is never written *)
 Theorem C05_multi_table_update_frame : forall sets on wh ps cs ps' n,
